@@ -72,8 +72,9 @@ def record(line, m):
         line = dict(line, id=key, kind="seeded")
     else:
         line = dict(line, kind="planted", fault=bool(m.get("fault")), file=m["file"])
-    if key in data and "note" in data[key] and "note" not in line:
-        line["note"] = data[key]["note"]
+    for keep in ("note", "withdrawn"):
+        if key in data and keep in data[key] and keep not in line:
+            line[keep] = data[key][keep]
     data[key] = line
     with open(RESULTS + ".tmp", "w") as f:
         json.dump(data, f, indent=1, sort_keys=True)
